@@ -603,6 +603,13 @@ def write_evidence(prop, tier, seed, results, wall, nviol, regress_run, known_se
         json.dump(ev, f, indent=1)
         f.write('\n')
     os.replace(tmp, os.path.join(d, '%s.json' % prop.id))
+    if tier == 'thorough' and not partial:
+        # keep the last thorough evidence next to the file the quick tier rewrites
+        td = os.path.join(d, 'thorough')
+        os.makedirs(td, exist_ok=True)
+        with open(os.path.join(td, '%s.json' % prop.id), 'w') as f:
+            json.dump(ev, f, indent=1)
+            f.write('\n')
 
 
 def main(argv=None):
